@@ -326,7 +326,7 @@ class URL:
                 netloc = self.netloc
                 _, _, hostname = netloc.rpartition("@")
 
-                if hostname[-1] != "]":
+                if not hostname.endswith("]"):
                     hostname = hostname.rsplit(":", 1)[0]
 
             netloc = hostname
